@@ -7,6 +7,7 @@ import (
 	"errors"
 	"fmt"
 	"io"
+	"net"
 	"runtime"
 	"sync"
 	"sync/atomic"
@@ -188,6 +189,16 @@ func (c *Chan) Recv() ([]byte, error) {
 	k := int(c.nRecv.Add(1))
 	c.yield()
 	switch c.fault("recv", k) {
+	case "netclosed", "chanclosed":
+		// the transport was shut down underneath: Recv reports a "closed" error
+		err := fmt.Errorf("recv: %w", net.ErrClosed)
+		if c.fault("recv", k) == "chanclosed" {
+			err = fmt.Errorf("recv: %w", channel.ErrClosed)
+		}
+		if c.onEvent != nil {
+			c.onEvent("recvfault", nil, err)
+		}
+		return nil, err
 	case "err":
 		if c.onEvent != nil {
 			c.onEvent("recvfault", nil, ErrInjected)
